@@ -20,7 +20,7 @@ Task: make ONE small, realistic change to the project's non-test source code in 
   1. the project still compiles: `cd {wt} && GOFLAGS=-mod=mod GOPROXY=off go build ./... ; GOFLAGS=-mod=mod GOPROXY=off go build -tags dae_stub_ebpf ./...` (the second form is the one that builds package `control`; the first may fail for package control/cmd already before your change — that is expected);
   2. the existing test suite still passes exactly as before: `cd {wt} && GOFLAGS=-mod=mod GOPROXY=off go test -vet=off -count=1 ./... 2>&1 | grep -v 'no test files'` (packages that failed to build before your change may keep failing the same way; no package that passed may fail);
   3. the property above is violated — but NOT in a way ordinary use would expose at once: it should need something specific to manifest (a particular input or boundary value, a multi-step sequence of operations, a particular interleaving, an unusual but legal configuration). {hint}
-Do not edit or add test files in the worktree as part of the change, do not change exported APIs, do not add build tags. (Environment: offline; use GOFLAGS=-mod=mod GOPROXY=off; do NOT set GOSUMDB=off or GOTOOLCHAIN=local. Use `-tags dae_stub_ebpf` whenever you build or test package control or cmd.)
+IMPORTANT: never use `git stash` (the stash is shared between all worktrees of the repository and other engineers work in sibling worktrees) — to compare with/without your change use `git diff > /tmp/x.diff; git apply -R /tmp/x.diff; …; git apply /tmp/x.diff`. Do not edit or add test files in the worktree as part of the change, do not change exported APIs, do not add build tags. (Environment: offline; use GOFLAGS=-mod=mod GOPROXY=off; do NOT set GOSUMDB=off or GOTOOLCHAIN=local. Use `-tags dae_stub_ebpf` whenever you build or test package control or cmd.)
 
 Then write a DEMONSTRATION: a Go test file (placed in the relevant package directory of the worktree, named zz_seed_demo_test.go, or a small main program) that FAILS with your change and PASSES without it (verify both: `git stash` / `git stash pop` or by reverting your edit), exercising the real code.
 
